@@ -136,6 +136,79 @@ pub fn exec_oracle(kind: &str, fields: &[&str]) -> String {
             }
             "oracle pass".to_string()
         }
+        "S_C18L" => {
+            // contexts of their own on several threads instantiate operators over the same grid while another thread
+            // clears the shared grid cache: a grid that exists is found, every time
+            let def = unescape(fields[0]);
+            let stop = std::sync::atomic::AtomicBool::new(false);
+            let stop_ref = &stop;
+            let def_ref = &def;
+            let problems: Vec<String> = std::thread::scope(|s| {
+                let clearer = s.spawn(move || {
+                    while !stop_ref.load(std::sync::atomic::Ordering::Relaxed) {
+                        Plain::clear_grids();
+                        std::thread::yield_now();
+                    }
+                });
+                let mut hs = vec![];
+                for t in 0..6 {
+                    hs.push(s.spawn(move || {
+                        let t0 = std::time::Instant::now();
+                        let mut round = 0;
+                        while t0.elapsed().as_millis() < 1200 {
+                            let mut ctx = Plain::new();
+                            match ctx.op(def_ref) {
+                                Ok(op) => {
+                                    let mut d = vec![Coor4D([0.2, 0.96, 0., 0.])];
+                                    let _ = ctx.apply(op, Fwd, &mut d);
+                                }
+                                Err(e) => return Some(format!("thread {t} round {round}: {def_ref} not instantiable ({e}) while another thread clears the grid cache")),
+                            }
+                            round += 1;
+                        }
+                        None
+                    }));
+                }
+                let out: Vec<String> = hs.into_iter().filter_map(|h| h.join().unwrap_or(Some("thread panicked".to_string()))).collect();
+                stop_ref.store(true, std::sync::atomic::Ordering::Relaxed);
+                let _ = clearer.join();
+                out
+            });
+            match problems.first() {
+                Some(p) => format!("oracle FAIL {p}"),
+                None => "oracle pass".to_string(),
+            }
+        }
+        "S_C18C" => {
+            // a name with a colon is a macro's name: an operator a user registers under such a name is never looked at
+            // (the macro of that name is what the name means; without one the name is unknown)
+            let kind = fields[0];
+            let spec = crate::exec::CtxSpec {
+                kind: kind.to_string(),
+                resources: vec![("m:x".to_string(), "addone".to_string())],
+                users: vec![("m:x".to_string(), "u:add2".to_string()), ("geo:in".to_string(), "u:add2".to_string()), ("n:c".to_string(), "u:add2".to_string())],
+            };
+            let data = vec![Coor4D([55., 12., 0., 0.])];
+            crate::exec::with_ctx(&spec, |ctx| {
+                // (the built-in adaptor macros are in the contexts made by `new()` only)
+                let adaptor = if kind.ends_with("new") { Some(12f64.to_radians()) } else { None };
+                for (def, want) in [("m:x", Some(56.0)), ("addone | m:x", Some(57.0)), ("geo:in", adaptor), ("n:c", None), ("addone | n:c", None)] {
+                    match (ctx.op(def), want) {
+                        (Ok(op), Some(w)) => {
+                            let mut d = data.clone();
+                            let _ = ctx.apply(op, Fwd, &mut d);
+                            if !((d[0][0] - w).abs() < 1e-12) {
+                                return format!("oracle FAIL {def}: {} where the macro of that name gives {w} (an operator was registered under the name)", d[0][0]);
+                            }
+                        }
+                        (Err(_), None) => {}
+                        (Ok(_), None) => return format!("oracle FAIL {def} resolves to the operator a user registered under a name with a colon"),
+                        (Err(e), Some(_)) => return format!("oracle FAIL {def} not instantiable ({e})"),
+                    }
+                }
+                "oracle pass".to_string()
+            })
+        }
         "S_INVMOD" => {
             // the `inv` modifier, behind or in front of the operator's name, exchanges the two directions of the
             // operator - whatever the operator: `def inv` forward is `def` inverse, and the other way round
@@ -4082,6 +4155,14 @@ fn oracle_c06(fields: &[&str]) -> String {
                             return format!("oracle FAIL {def} at {}: operator gives {} / {}, the ellipsoid's methods {} / {}", p[1], f[k][1], i[k][1], fw(p[1]), bw(p[1]));
                         }
                     }
+                }
+            }
+            // the meridian arc to either pole, and back (the quadrant, with the sign of the pole)
+            for pole in [hp, -hp] {
+                let d = e.meridian_latitude_to_distance(pole);
+                let back = e.meridian_distance_to_latitude(d);
+                if !((back - pole).abs() < 1e-9) || !(d * pole > 0.0) {
+                    return format!("oracle FAIL meridian distance {d} of the pole {pole} on {} comes back as latitude {back}", fields[1]);
                 }
             }
             // isometric latitude and meridian arcs
